@@ -38,6 +38,38 @@ NEEDS = {
             "earlier group",
     "C20a": "an EXTENDS cycle plus a tail type extending a member of it, a member name shared by tail and chain, and a "
             "references/highlight/rename on that name",
+    "C01c": "main() reads stdin unbuffered (FileIO): a body delivered in two pieces or larger than the pipe buffer is "
+            "read short (needs real pipes with delivery timing; fortls.main() is outside the simulated boundary)",
+    "C01d": "a handler failure whose exception has an empty message (str(e) == ''): the error path itself raises",
+    "C02c": "a whole-document change with text T, in-line edits, then another change with the same text T "
+            "(memoised line split shares its list with the document)",
+    "C02d": "a didSave handled while the disk read fails, followed by further didChange (the open document is dropped)",
+    "C03c": "a preprocessed file with an active #include of a header containing bytes that are not valid UTF-8",
+    "C03d": "two preprocessed documents: A defines M, B #undef/#define M, A re-indexed without M, then B re-indexed "
+            "(KeyError deleting an already removed macro)",
+    "C09c": "a document created after initialize whose first read (didOpen/didSave) fails or races, then "
+            "documentSymbol/codeAction on it or a didChange of another file",
+    "C09d": "a chain of three files (c uses only b, b uses a, c's type extends a's type), an unsaved multi-line edit "
+            "of a, then a request in c/main through the inherited component",
+    "C10c": "a didSave/didOpen/didClose of an unchanged file while open() fails, the file comes back identical and is "
+            "announced again (hash shortcut skips re-indexing)",
+    "C10d": "an earlier query through v%... caches the type, then the type becomes unreachable without either file "
+            "being re-parsed (defining file deleted, or a re-exporting module edited)",
+    "C15c": "a load fault at start-up on a file that is not enumerated last (zip shifts the registration of the rest)",
+    "C15d": "a cross-file link through a re-exporting module, with the defining file opened after the dependent file "
+            "and the re-exporter",
+    "C16c": "two file URIs that differ only in letter case converted in one server process (memo keyed on lower case)",
+    "C16d": "an error response (write_error) whose text contains non-ASCII characters",
+    "C17c": "the same unsafe #if condition evaluated at least twice in the long-lived process (compiled-condition "
+            "cache filled before the whitelist check)",
+    "C17d": "a configuration file that JSON5 rejects but that is a valid Python expression",
+    "C18c": "a source directory containing an entry whose stat fails with something other than ENOENT (symlink loop) "
+            "before other sources in listing order",
+    "C18d": "at least two excl_suffixes and a file name containing a non-last one in the middle (hash-seed dependent)",
+    "C19c": "the -c file unreadable / vanishing / invalid while another default-named configuration file exists",
+    "C19d": "pp_defs given on the command line and in the file with different contents, then a re-parse of a document",
+    "C20c": "an INCLUDE cycle through program units plus a second includer of one cycle member from outside, "
+            "resolved in a particular order",
     "C20b": "a '=>' link cycle across two modules that USE each other, a didChange of the file whose link was "
             "refused at start-up, then a query",
 }
